@@ -543,6 +543,9 @@ matrix_new(PyTypeObject *type, PyObject *args, PyObject *kwds)
   if (nrows < 0 || ncols < 0)
     PY_ERR_TYPE("dimensions must be non-negative");
 
+  if (nrows > INT_MAX || ncols > INT_MAX)
+    PY_ERR(PyExc_OverflowError, "dimensions exceed INT_MAX");
+
   if (tc && !(VALID_TC_MAT(tc))) PY_ERR_TYPE("tc must be 'i', 'd' or 'z'");
   int id = (tc ? TC2ID(tc) : -1);
 
